@@ -378,6 +378,33 @@ PLANS['C11'] = dict(
 )
 
 
+def c03_owners(w, home):
+    if w.get('oracle') == 'tsan':
+        return {'C03'}
+    return mu_mix_owners(w, home) | notes_owners(w, home) - {home} if w.get('oracle') not in ('crash', 'panic') else {home}
+
+
+def c03_groups():
+    gs = []
+    for v, procs in (('c-tsan-raw', 3), ('cpp-tsan-raw', 2), ('c11-tsan-raw', 2)):
+        gs += [G('hb', v, 'B', procs, 900, owners=c03_owners, thorough=18000),
+               G('hb', v, 'A', 1, 600, owners=c03_owners, thorough=12000),
+               G('mu_mix', v, 'B', procs, 400, owners=c03_owners, thorough=8000),
+               G('cond_rounds', v, 'B', 1, 400, owners=c03_owners, thorough=8000)]
+    gs += [G('mu_mix', 'c-tsan-raw', 'A', 2, 300, owners=c03_owners, thorough=6000)]
+    return gs
+
+
+PLANS['C03'] = dict(
+    rule=RULE_B + RULE_A + 'all three atomic mappings (gcc builtins, std::atomic, C11 stdatomic) are built with -fsanitize=thread -U__SANITIZE_THREAD__ so that ThreadSanitizer sees only the declared memory orders; '
+         'non-trivial = the execution performed at least one plain payload access on each side of a hand-off (every hb round; mu_mix/cond_rounds rounds with contention).',
+    groups=c03_groups(),
+    assumptions=['decided relative to ThreadSanitizer\'s happens-before model (release sequences continue across any later store; bounded access history)',
+                 'the Mode B runtime is not instrumented and hands the token over with relaxed atomics and raw futex calls: it contributes no happens-before edge',
+                 'nothing is claimed for ATM_* sites the workloads did not reach (listed under atm_sites_not_hit)'],
+)
+
+
 def expand(prop, tier, scale=1.0):
     spec = PLANS[prop]
     out = []
